@@ -13,6 +13,7 @@ from .world import World, explore, Stats
 from .models import TABLE
 from .models import core as _core, fs as _fs, ssri as _ssri, serde as _serde  # noqa: F401 (registration)
 from .models import asyncrt as _asyncrt  # noqa: F401
+from .models import extra as _extra  # noqa: F401
 from .models.fs import Env, VFS
 from .sbytes import SBytes
 
